@@ -832,6 +832,8 @@ func (u *Unit) evalCompositeLit(cl *ast.CompositeLit, env *Env, addr bool) Value
 
 func (u *Unit) rtype(v Term) Term {
 	u.D.Fun("rtype", SInt, SVal)
+	// the nil interface has no dynamic type (type ids of real types are positive)
+	u.D.Axiom("rtype-nil", "(= (rtype nil_Val) 0)")
 	return App("rtype", SInt, v)
 }
 
@@ -932,6 +934,7 @@ func (u *Unit) boxFacts(env *Env, b Term, ty types.Type) {
 			u.D.Fun(fn, SBool, SVal)
 			env.assume(App(fn, SBool, b))
 			env.assume(Not(u.untyped(b)))
+			u.isaOrigin(fn, n, b)
 			// a boxed value of a named non-interface type implements exactly the interfaces its method set satisfies
 			u.boxedStatic[b.S] = ty
 		}
@@ -940,7 +943,7 @@ func (u *Unit) boxFacts(env *Env, b Term, ty types.Type) {
 		return
 	}
 	u.boxedStatic[b.S] = ty
-	id := u.Prog.TypeIDs.ID(ty)
+	id := u.typeID(ty)
 	env.assume(Same(u.rtype(b), IntLit(int64(id))))
 	env.tags[b.S] = id
 	u.reflectFactsFor(env, b, ty)
@@ -981,14 +984,51 @@ func (u *Unit) typeAssert(env *Env, x Value, ty types.Type) (Term, Value) {
 				env.assume(Imp(And(Not(u.untyped(x.Term)), Not(u.untyped(w)), Same(u.rtype(x.Term), u.rtype(w))), App(fn, SBool, x.Term)))
 			}
 		}
+		u.isaTyped(fn, x.Term)
+		u.isaOrigin(fn, ty, x.Term)
 		return App(fn, SBool, x.Term), v
 	}
-	id := u.Prog.TypeIDs.ID(ty)
+	id := u.typeID(ty)
 	if known, ok := env.tags[x.S]; ok {
 		return boolTerm(known == id), v
 	}
 	ok := Same(u.rtype(x.Term), IntLit(int64(id)))
 	return ok, v
+}
+
+// type identities: every concrete type has a positive id; torigin(id) is the id itself for a non-generic type and the id of
+// the generic declaration for an instance of a generic type (so instances of different declarations, and non-generic
+// types, are pairwise different)
+func (u *Unit) typeID(ty types.Type) int {
+	id := u.Prog.TypeIDs.ID(ty)
+	u.D.Fun("torigin", SInt, SInt)
+	u.D.Axiom(fmt.Sprintf("torigin:%d", id), fmt.Sprintf("(= (torigin %d) %d)", id, id))
+	return id
+}
+
+func (u *Unit) isaOrigin(fn string, named types.Type, v Term) {
+	n, ok := types.Unalias(named).(*types.Named)
+	if !ok {
+		return
+	}
+	oid := u.Prog.TypeIDs.ID(n.Origin())
+	u.D.Fun("torigin", SInt, SInt)
+	if strings.Contains(v.S, "?") {
+		x := u.D.Bound("x", SVal)
+		u.D.Axiom("isa-origin:"+fn, Forall([]Term{x}, Imp(App(fn, SBool, x), Same(App("torigin", SInt, u.rtype(x)), IntLit(int64(oid)))), []Term{App(fn, SBool, x)}).S)
+		return
+	}
+	u.D.Axiom("isa-origin:"+fn+":"+v.S, Imp(App(fn, SBool, v), Same(App("torigin", SInt, u.rtype(v)), IntLit(int64(oid)))).S)
+}
+
+// a value whose dynamic type is a concrete (generic) named type is not the nil interface
+func (u *Unit) isaTyped(fn string, v Term) {
+	if strings.Contains(v.S, "?") {
+		x := u.D.Bound("x", SVal)
+		u.D.Axiom("isa-typed:"+fn, Forall([]Term{x}, Imp(App(fn, SBool, x), Not(u.untyped(x))), []Term{App(fn, SBool, x)}).S)
+		return
+	}
+	u.D.Axiom("isa-typed:"+fn+":"+v.S, Imp(App(fn, SBool, v), Not(u.untyped(v))).S)
 }
 
 func (u *Unit) untyped(v Term) Term {
